@@ -47,4 +47,16 @@ rounding is monotone), so the result is `a // b`.  Everything else is `unsupport
 def truncDiv (a : Int) (b : Nat) : PyM Int :=
   if 0 ≤ a ∧ a < 2 ^ 53 then pure (a / b) else throw (.unsupported "int(a / b) outside 0 <= a < 2**53")
 
+/-- `b * n` of a bytes value: `n ≤ 0` gives `b""` -/
+def bytesMul (b : List Nat) (n : Int) : List Nat := (List.replicate n.toNat b).flatten
+
+/-- neighbouring items exchanged -/
+def swapList {α : Type} : List α → List α
+  | a :: b :: r => b :: a :: swapList r
+  | r => r
+
+/-- `x[0::2], x[1::2] = x[1::2], x[0::2]` on a bytearray: the right-hand side is two copies; an extended slice can only be
+assigned a sequence of its own length, so an odd length is `ValueError` (at the first of the two assignments) -/
+def swapPairs (l : List Nat) : PyM (List Nat) := if l.length % 2 = 0 then pure (swapList l) else throw .value
+
 end Dmr.PyArr
